@@ -37,7 +37,7 @@ Proof.
 Qed.
 
 Lemma queries_queried : forall k q, (0 < q)%nat ->
-  existsb (fun f => match f with FxAuthQuery _ _ => true | _ => false end) (queries k q) = true.
+  existsb (fun f => match f with FxAuthQuery _ _ _ => true | _ => false end) (queries k q) = true.
 Proof. intros k q H. destruct q; [lia|]. reflexivity. Qed.
 
 Lemma auth_enabled_pos : forall cfg, auth_enabled cfg = true -> (0 < c_authd cfg)%nat.
@@ -85,7 +85,7 @@ Ltac rw_hyps :=
 
 (* what a passing / a refusing CheckAuth implies *)
 Definition has_query (fx : list effect) : bool :=
-  existsb (fun f => match f with FxAuthQuery _ _ => true | _ => false end) fx.
+  existsb (fun f => match f with FxAuthQuery _ _ _ => true | _ => false end) fx.
 
 Lemma ca_pass : forall cfg now k o t ch k1 o1 fx,
   ca_spec cfg now k o t ch (k1, o1, fx, None) -> auth_enabled cfg = true ->
@@ -137,7 +137,7 @@ Lemma ca_auth : forall cfg now k o t ch k1 o1 fx v,
   k_auth k1 = k_auth k \/
   (has_authorizations k = true /\ auth_enabled cfg = true /\
    exists a', k_auth k1 = Some a' /\ fst (fst (query_any (c_authd cfg) now o)) = Some a' /\
-   existsb (fun f => match f with FxAuthQuery _ _ => true | _ => false end) fx = true).
+   existsb (fun f => match f with FxAuthQuery _ _ _ => true | _ => false end) fx = true).
 Proof.
   intros * H. inversion H; subst; auto.
   right. split; auto. split; auto. exists a'. simpl.
